@@ -1,14 +1,14 @@
 SPECIFICATION Spec
-CONSTANTS Links = {3}
+CONSTANTS Links = {5}
   MaxHbf = 1
   MaxPages = 2
   MaxWords = 5
-  Df = 2
-  Ver = 7
+  Df = 0
+  Ver = 6
   Running = TRUE
   Its = TRUE
   Faults = TRUE
-  Ob = FALSE
+  Ob = TRUE
 INVARIANTS NoFalseAlarm FaultDetected Dump
 VIEW AbsView
 CHECK_DEADLOCK FALSE
